@@ -155,7 +155,7 @@ var (
 )
 
 func BV(v uint64, w int) *Term { return mk(OpConst, w, v&mask(w), "") }
-func I64(v int64) *Term       { return BV(uint64(v), 64) }
+func I64(v int64) *Term        { return BV(uint64(v), 64) }
 func BoolT(b bool) *Term {
 	if b {
 		return tTrue
@@ -1031,8 +1031,8 @@ func (t *Term) str(d int) string {
 
 // eval evaluates a term under a model (variables, base-array bytes, UF not supported).
 type Model struct {
-	vars map[string]uint64
-	arrs map[string]map[uint64]uint8
+	vars       map[string]uint64
+	arrs       map[string]map[uint64]uint8
 	arrDefault map[string]uint8
 }
 
